@@ -219,25 +219,31 @@ Conforms(root, t) == ConfNode(root, t)
 
 \* The same tree: order matters for user-ordered lists and leaf-lists only; the name of
 \* the (synthetic) root is not compared.
-RECURSIVE SameNode(_, _, _), SameKids(_, _, _)
-SameKids(psn, a, b) ==
+\* ord = FALSE: user-ordered collections are compared as sets as well (used to say how two trees differ)
+RECURSIVE SameNodeO(_, _, _, _), SameKidsO(_, _, _, _)
+SameKidsO(psn, a, b, ord) ==
   /\ Len(a) = Len(b) /\ Distinct([i \in 1..Len(a) |-> a[i].n]) /\ Distinct([i \in 1..Len(b) |-> b[i].n])
   /\ \A i \in 1..Len(a) : \E j \in 1..Len(b) :
-        a[i].n = b[j].n /\ HasChild(psn, a[i].n) /\ SameNode(Child(psn, a[i].n), a[i], b[j])
-SameEntry(sn, a, b) == a.n = b.n /\ a.vals = b.vals /\ SameKids(sn, a.kids, b.kids)
-SameNode(sn, a, b) ==
+        a[i].n = b[j].n /\ HasChild(psn, a[i].n) /\ SameNodeO(Child(psn, a[i].n), a[i], b[j], ord)
+SameEntryO(sn, a, b, ord) == a.n = b.n /\ a.vals = b.vals /\ SameKidsO(sn, a.kids, b.kids, ord)
+SameNodeO(sn, a, b, ord) ==
   CASE sn.k = "leaf" -> NormVals(sn, a.vals) = NormVals(sn, b.vals) /\ a.kids = b.kids
     [] sn.k = "ll" -> /\ a.kids = b.kids
-                      /\ IF sn.user THEN a.vals = b.vals
+                      /\ IF sn.user /\ ord THEN a.vals = b.vals
                          ELSE Len(a.vals) = Len(b.vals) /\ SeqRange(a.vals) = SeqRange(b.vals)
-    [] sn.k \in {"cont", "root"} -> a.vals = b.vals /\ SameKids(sn, a.kids, b.kids)
+    [] sn.k \in {"cont", "root"} -> a.vals = b.vals /\ SameKidsO(sn, a.kids, b.kids, ord)
     [] sn.k = "list" ->
          /\ a.vals = b.vals /\ Len(a.kids) = Len(b.kids)
-         /\ IF sn.user THEN \A i \in 1..Len(a.kids) : SameEntry(sn, a.kids[i], b.kids[i])
+         /\ IF sn.user /\ ord THEN \A i \in 1..Len(a.kids) : SameEntryO(sn, a.kids[i], b.kids[i], ord)
             ELSE /\ Distinct(KidNames(a)) /\ Distinct(KidNames(b))
-                 /\ \A i \in 1..Len(a.kids) : \E j \in 1..Len(b.kids) : SameEntry(sn, a.kids[i], b.kids[j])
+                 /\ \A i \in 1..Len(a.kids) : \E j \in 1..Len(b.kids) : SameEntryO(sn, a.kids[i], b.kids[j], ord)
     [] OTHER -> FALSE
+SameNode(sn, a, b) == SameNodeO(sn, a, b, TRUE)
+SameKids(psn, a, b) == SameKidsO(psn, a, b, TRUE)
+SameEntry(sn, a, b) == SameEntryO(sn, a, b, TRUE)
 SameTree(root, a, b) == SameNode(root, a, b)
+\* how two trees that are not the same differ: only in the order of the entries of user-ordered lists / leaf-lists, or in more
+TreeDiff(root, a, b) == IF SameNodeO(root, a, b, FALSE) THEN "user-order-changed" ELSE "content"
 
 \* ---------------------------------------------------------------- outcomes
 \* What a decoder may do with a document:
